@@ -356,19 +356,12 @@ Inductive cov_result :=
   | Incompatible                       (* shapes that cannot be broadcast: ValueError *)
   | CovError (e : errkind).
 
-(* the number of samples every direction stands for: 1 in the pinned code, which ignores the
-   position angles; len(sampling) / indices.size with fixes/C17-coverage-pa-broadcast.diff *)
-Definition multiplicity (pa_counts : bool) (t pa_shape : list Z) : option Z :=
-  if pa_counts then
-    match bshape t pa_shape with
-    | Some u => Some (prod u / Z.max (prod t) 1)
-    | None => None
-    end
-  else Some 1.
-
-(* indices = self.world2index(theta, phi); coverage = self.get_coverage(Sampling(theta, phi, pa))
-   for a landscape whose world2pixel is the identity (flat maps: x = theta, y = phi) *)
-Definition sampling_coverage (pa_counts x64 : bool) (c : landscape + errkind) (theta phi : field)
+(* indices = self.world2index(theta, phi);
+   coverage = self.get_coverage(Sampling(theta, phi, pa)): the histogram of the indices broadcast
+   against the shape of the position angles (every sample counts: detectors sharing a direction),
+   for a landscape whose world2pixel is the identity (flat maps: x = theta, y = phi).
+   [the pinned tree ignored pa: fixed by furax commit 9b83753] *)
+Definition sampling_coverage (x64 : bool) (c : landscape + errkind) (theta phi : field)
     (pa_shape : list Z) : cov_result :=
   match c with
   | inr e => CovError e
@@ -381,12 +374,18 @@ Definition sampling_coverage (pa_counts x64 : bool) (c : landscape + errkind) (t
           match run_points x64 l (map (fun xy => [fst xy; snd xy]) (combine xs ys)) with
           | Error e => CovError e
           | Ok w idx =>
-              match multiplicity pa_counts t pa_shape with
+              match bshape t pa_shape with
               | None => Incompatible
-              | Some m => Coverage t w idx (map (Z.mul m) (get_coverage (len l) idx))
+              | Some u => Coverage t w idx (get_coverage (len l) (broadcast_to t u idx))
               end
           end
       end
+  end.
+(* the same on a landscape whose world2pixel is not modelled (HEALPix): the indices are given *)
+Definition coverage_of_indices (N : Z) (t : list Z) (idx : list Z) (pa_shape : list Z) : option (list Z) :=
+  match bshape t pa_shape with
+  | None => None
+  | Some u => Some (get_coverage N (broadcast_to t u idx))
   end.
 
 Inductive ctor_result := Built (shape pixel_shape : list Z) (len size : Z) | Rejected (e : errkind).
